@@ -45,14 +45,37 @@ class Disposables:
                 return multiple
 
     async def __aenter__(self) -> Iterable[State]:
-        return [
-            *chain.from_iterable(
-                state
-                for state in await gather(
-                    *[self._initialize(disposable) for disposable in self._disposables],
-                )
+        results: list[Iterable[State] | BaseException] = await gather(
+            *[self._initialize(disposable) for disposable in self._disposables],
+            return_exceptions=True,
+        )
+
+        exceptions: list[BaseException] = [res for res in results if isinstance(res, BaseException)]
+        if exceptions:
+            error: BaseException = (
+                exceptions[0]
+                if len(exceptions) == 1
+                else BaseExceptionGroup("Initializing errors", exceptions)
             )
-        ]
+            # dispose what was already initialized, the scope won't be entered
+            disposing_errors: list[BaseException] = [
+                res
+                for res in await gather(
+                    *[
+                        disposable.__aexit__(type(error), error, error.__traceback__)
+                        for disposable, res in zip(self._disposables, results, strict=True)
+                        if not isinstance(res, BaseException)
+                    ],
+                    return_exceptions=True,
+                )
+                if isinstance(res, BaseException)
+            ]
+            if disposing_errors:
+                raise BaseExceptionGroup("Initializing errors", [*exceptions, *disposing_errors])
+
+            raise error
+
+        return [*chain.from_iterable(res for res in results if not isinstance(res, BaseException))]
 
     async def __aexit__(
         self,
